@@ -213,6 +213,7 @@ def check(ck: Checker) -> None:
     ck.floor("C09.nested", n_rmdir, 1, "rmdir call sites")
 
     _compare_rules(ck)
+    _cmp_key_rule(ck)
     _error_rules(ck)
 
     rows_rule(ck, "C09.rows")
@@ -251,6 +252,50 @@ def rows_rule(ck: Checker, rule: str) -> None:
                    "every entry whose source resolves gets its own appended (entry, source, destination) row",
                    "an entry can pass through the loop without a row being appended for it (e.g. rows keyed/de-duplicated by source path): files sharing content are then not created",
                    witness=gcf.fmt_path(gcf.path_to(reached, h.id)) if bad else None, construct="for entry in entries / one row each")
+
+
+def _cmp_key_rule(ck: Checker) -> None:
+    """The metadata comparison key index checkout hands to the diff keeps the two bits checkout acts on: whether
+    the entry is a directory and whether it is executable (otherwise an exec-bit-only change is UNCHANGED and
+    the chmod branch can never be reached)."""
+    prog = ck.prog
+    fn = prog.func("index.checkout", "_compare")
+    keys = []
+    for c in ast.walk(fn.node):
+        if not isinstance(c, ast.Call):
+            continue
+        if is_method_call(c, "setdefault") and len(c.args) == 2 and isinstance(c.args[0], ast.Constant) and c.args[0].value == "meta_cmp_key":
+            keys.append((c, c.args[1]))
+        for k in c.keywords:
+            if k.arg == "meta_cmp_key" and not (isinstance(k.value, ast.Name) and k.value.id == "meta_cmp_key" and fn.has_param("meta_cmp_key")):
+                keys.append((c, k.value))
+    chm = [x for x in ast.walk(fn.node) if isinstance(x, ast.Attribute) and x.attr == "files_chmod"]
+    if not keys:
+        # no custom key: the diff compares whole Meta objects, which include both bits
+        ck.ok("C09.kinds", fn, fn.node, "no custom metadata comparison key (whole Meta is compared)", construct="meta_cmp_key")
+        return
+    for c, v in keys:
+        kf = None
+        if isinstance(v, ast.Lambda):
+            kf = v
+        elif isinstance(v, ast.Name):
+            kf = next((d for d in ast.walk(fn.node) if isinstance(d, ast.FunctionDef) and d.name == v.id), None)
+            if kf is None:
+                ent = prog.lookup_name(fn, v.id)
+                kf = ent.node if isinstance(ent, Func) else None
+        if kf is None:
+            ck.fail("C09.kinds", fn, c, f"cannot resolve the metadata comparison key `{norm(v)}`")
+            continue
+        p0 = kf.args.args[0].arg if kf.args.args else None
+        rets = [kf.body] if isinstance(kf, ast.Lambda) else [r.value for r in ast.walk(kf) if isinstance(r, ast.Return) and r.value is not None]
+        whole = any(isinstance(r, ast.Name) and r.id == p0 for r in rets if not isinstance(r, ast.Constant))
+        attrs = {a.attr for r in rets for a in ast.walk(r) if isinstance(a, ast.Attribute) and isinstance(a.value, ast.Name) and a.value.id == p0}
+        # `return meta` under `if meta is None` is the None pass-through, not the whole-object key
+        nonnull = [r for r in rets if not (isinstance(r, ast.Name) and r.id == p0)]
+        ok = (whole and not nonnull) or {"isdir", "isexec"} <= attrs
+        ck.require(ok, "C09.kinds", fn, c, "the metadata comparison key includes isdir and isexec",
+                   f"the metadata comparison key `{norm(v)}` compares only {sorted(attrs) or 'nothing'}: an entry that differs from the workspace only in its " + ("executable bit" if "isexec" not in attrs else "kind (file / directory)") + " is classified UNCHANGED, so it is never queued for chmod / replacement" + ("" if chm else ""),
+                   construct=f"meta_cmp_key = {norm(v)} / isdir, isexec")
 
 
 def _compare_rules(ck: Checker) -> None:
